@@ -72,12 +72,11 @@ func (d *Decoder) decodeNegInt(majorByte byte) (i int64, err error) {
 	if err != nil {
 		return 0, err
 	}
-	pos := ui + 1
-	if pos > uint64(-math.MinInt64) {
+	if ui > math.MaxInt64 { // -1-ui must fit int64; note ui+1 would wrap to 0 for ui = 2^64-1
 		return -1, errors.New("cbor: negative integer out of rage of int64 type")
 	}
 
-	return -int64(pos), nil
+	return -1 - int64(ui), nil
 }
 
 // Decode expecting a positive integer.
